@@ -35,7 +35,8 @@ FLOORS = {'aggregate_evaluations': 3000, 'two_dimensional': 200,
           'big_integer_cases': 50, 'zero_valued_rectangles': 6,
           'derived_models': 20, 'float_lookalike_text_cases': 50,
           'placed_rectangle_cases': 500, 'long_zero_runs': 6,
-          'switched_failure_evaluations': 50}
+          'switched_failure_evaluations': 50,
+          'single_cell_split_cases': 100}
 ANCHOR_FUNCS = {
     'xlcalculator/xlfunctions/math.py': ['SUM', 'SUMPRODUCT'],
     'xlcalculator/xlfunctions/statistics.py': ['AVERAGE', 'MIN', 'MAX',
@@ -454,6 +455,51 @@ def run(ctx):
         if len(B.items) > 250:
             B.flush(judge)
     B.flush(judge)
+
+    # ---- a range split into sub-ranges AND single cells: the single-cell
+    # references are references like the rest (text and blanks in them are
+    # ignored, not converted) ---------------------------------------------------
+    for it_ in range((400 if thorough else 32) // ctx.nshards + 1):
+        rows, cols = rng.randint(2, 3), rng.randint(2, 3)
+        flat = [v if rng.random() < 0.6 else
+                (None if rng.random() < 0.4 else rng.choice(TEXTS + ['12x']))
+                for v in numbers(rng, rows * cols)]
+        flat[0] = rng.choice(TEXTS)            # the top-left cell holds a text
+        if not any(isinstance(v, float) for v in flat):
+            flat[-1] = 2.5
+        cells_ = {}
+        for i, v in enumerate(flat):
+            if v is not None:
+                cells_[(S, 1 + i % cols, 1 + i // cols)] = v
+        whole = ('rng', None, 1, 1, cols, rows, F4)
+        singles = [('ref', None, c, 1, False, False)
+                   for c in range(1, cols + 1)]
+        rest = ('rng', None, 1, 2, cols, rows, F4)
+        wb = ref.Workbook(cells_)
+        inputs = {f'{ref.col_letters(c)}{r}': v
+                  for (s_, c, r), v in cells_.items()}
+        for f in ('SUM', 'AVERAGE', 'MIN', 'MAX', 'COUNT'):
+            if f in NEEDS_NUMBER and not any(
+                    isinstance(v, float) for v in flat):
+                continue
+            forms = {'whole': ('call', f, [whole]),
+                     'singles+rest': ('call', f, singles + [rest]),
+                     'rest+singles': ('call', f, [rest] + singles[::-1])}
+            outs = subject.eval_batch(
+                ['=' + ref.render(a) for a in forms.values()], inputs)
+            try:
+                # the same cells however they are addressed: the fold of the
+                # whole rectangle is the reference for every split of it
+                want = ('value', ref.to_norm(wb.eval(forms['whole'], S)))
+            except ref.Undecided:
+                continue
+            for (label, ast), got in zip(forms.items(), outs):
+                ctx.event('single_cell_split_cases')
+                judge(ast, {'func': f, 'cells': inputs,
+                            'kinds': 'split-into-single-cells:' + label,
+                            'two_d': rows > 1 and cols > 1,
+                            'nt': (f, 'single-split', label, rows, cols)},
+                      got, want)
 
     # ---- where a rectangle sits: blocks that start at other columns than A
     # (E:H, F:I, G:H, M:P, W:Z ...), on the formula's own sheet and on another
